@@ -1,27 +1,47 @@
 #!/usr/bin/env python3
-"""Sensitivity sweep: applies every kept seeded change (and optionally the revert of every fix: commit)
-to /repo in turn, runs quick checks, reverts, and records which checks reported a violation.
+"""Sensitivity sweep: applies every kept seeded change in turn to a scratch worktree of /repo, rebuilds a scratch copy of the
+harness against it, runs quick checks (the property's own and related ones), and records which checks reported a violation.
 
-usage: tools/sensitivity.py [--only C01-A,C02-B] [--extra]   (--extra: also run the related checks listed in EXTRA)
-Writes seeded/<id>/meta.json: detected_by and seeded/SENSITIVITY.json. Never run concurrently with other checks
-(it edits /repo's working tree and restores it with `git checkout -- . && git clean` of the touched files)."""
-import json, os, subprocess, sys, glob, time
+usage: tools/sensitivity.py [--only C01-A,C02-B] [--extra] [--jobs N]
+Nothing under /repo or /verif/harness is touched: the scratch worktree is /tmp/sens/repo, the harness copy /tmp/sens/harness
+(own target dir), evidence and replay files of these runs go to /tmp/sens/out. Writes seeded/<id>/meta.json: detected_by and
+seeded/SENSITIVITY.json; removes /tmp/sens at the end."""
+import json, os, subprocess, sys, glob, time, shutil
 
 EXTRA = {  # related checks that share mechanisms with the seeded property
     "C01": ["C05", "C03"], "C02": ["C07", "C03", "C16"], "C03": ["C09"], "C05": ["C06"], "C07": ["C08"], "C08": ["C07"],
     "C10": ["C14", "C13"], "C12": ["C13"], "C13": ["C12"], "C14": ["C13", "C15"], "C15": ["C12"], "C16": ["C17"], "C17": ["C16"],
     "C19": ["C10"],
 }
+S = "/tmp/sens"
+REPO = f"{S}/repo"
+HARN = f"{S}/harness"
+ENV = dict(os.environ, CARGO_NET_OFFLINE="true", CARGO_TARGET_DIR=f"{HARN}/target", VERIF_OUT_ROOT=f"{S}/out", MALLOC_ARENA_MAX="2")
 
 def sh(cmd, **kw):
     return subprocess.run(cmd, shell=True, text=True, capture_output=True, **kw)
 
-def clean_repo():
-    sh("git -C /repo reset -q --hard HEAD")
+def setup():
+    if os.path.isdir(REPO):
+        sh(f"git -C /repo worktree remove --force {REPO}")
+    shutil.rmtree(S, ignore_errors=True)
+    os.makedirs(f"{S}/out", exist_ok=True)
+    r = sh(f"git -C /repo worktree add -q --detach {REPO} HEAD")
+    if r.returncode: print(r.stderr, file=sys.stderr); sys.exit(2)
+    sh(f"rsync -a --exclude target /verif/harness/ {HARN}/")
+    for f in ("Cargo.toml",):
+        t = open(f"{HARN}/{f}").read().replace('path = "/repo"', f'path = "{REPO}"')
+        open(f"{HARN}/{f}", "w").write(t)
+    cfg = open(f"{HARN}/.cargo/config.toml").read().replace("/verif/harness/target", f"{HARN}/target")
+    open(f"{HARN}/.cargo/config.toml", "w").write(cfg)
+
+def build():
+    r = subprocess.run("cargo build --release --offline", shell=True, cwd=HARN, env=ENV, capture_output=True, text=True)
+    return r.returncode == 0, r.stderr[-1500:]
 
 def run_check(pid, seed=0):
-    env = dict(os.environ, VERIF_SEED=str(seed))
-    r = subprocess.run(["/verif/check", pid, "--tier", "quick"], text=True, capture_output=True, env=env, cwd="/verif")
+    env = dict(ENV, VERIF_SEED=str(seed))
+    r = subprocess.run([f"{HARN}/target/release/verif-engine", pid, "--tier", "quick"], text=True, capture_output=True, env=env, cwd=HARN)
     viol = [l for l in r.stdout.splitlines() if l.startswith("violation:") or l.startswith("regression case")]
     return r.returncode, (viol[0][:300] if viol else "")
 
@@ -30,8 +50,10 @@ def main():
     extra = "--extra" in sys.argv
     if "--only" in sys.argv:
         only = set(sys.argv[sys.argv.index("--only") + 1].split(","))
-    if sh("git -C /repo status --porcelain --untracked-files=no").stdout.strip():
-        print("/repo working tree is dirty", file=sys.stderr); sys.exit(2)
+    setup()
+    ok, err = build()
+    if not ok:
+        print("scratch harness does not build on the unchanged tree", err, file=sys.stderr); sys.exit(2)
     results = {}
     path = "/verif/seeded/SENSITIVITY.json"
     if os.path.exists(path):
@@ -40,9 +62,13 @@ def main():
         name = os.path.basename(d)
         if only and name not in only: continue
         pid = name.split("-")[0]
-        r = sh(f"git -C /repo apply {d}/patch.diff || git -C /repo apply --3way {d}/patch.diff")
+        sh(f"git -C {REPO} reset -q --hard HEAD")
+        r = sh(f"git -C {REPO} apply {d}/patch.diff || git -C {REPO} apply --3way {d}/patch.diff")
         if r.returncode != 0:
-            print(name, "PATCH DOES NOT APPLY", r.stderr[:200]); clean_repo(); continue
+            print(name, "PATCH DOES NOT APPLY", r.stderr[:200], flush=True); continue
+        ok, err = build()
+        if not ok:
+            print(name, "DOES NOT BUILD WITH HARNESS", err[-300:], flush=True); continue
         checks = [pid] + (EXTRA.get(pid, []) if extra else [])
         det = []; detail = {}
         t0 = time.time()
@@ -50,16 +76,15 @@ def main():
             code, why = run_check(c)
             detail[c] = {"exit": code, "why": why}
             if code == 1: det.append(c)
-        clean_repo()
         results[name] = {"detected_by": det, "checks_run": checks, "detail": detail, "wall_s": round(time.time() - t0, 1)}
         print(name, "detected_by", det, {c: v["exit"] for c, v in detail.items()}, flush=True)
         mp = f"{d}/meta.json"
         m = json.load(open(mp))
         prev = set(m.get("detected_by", []))
-        # keep detections recorded earlier by checks not re-run now
         m["detected_by"] = sorted(set(det) | {p for p in prev if p not in checks})
         json.dump(m, open(mp, "w"), indent=1)
         json.dump(results, open(path, "w"), indent=1, sort_keys=True)
-    clean_repo()
+    sh(f"git -C /repo worktree remove --force {REPO}")
+    shutil.rmtree(S, ignore_errors=True)
 
 main()
